@@ -224,12 +224,12 @@ def classified : List Reviewed := [
     .modelled, "the `_ => panic!` arm is part of the model (its message quotes the offending constant)", "range loop = Model.EnumRange.gather (min/max fold; the `_ => panic!` arm is modelled with its message): end_enum_type_or_error_order_independent"⟩,
   ⟨"typer/src/typer/scopes.rs", "end_enum", "for:&enum_values|from:enum_symbols", "1d70641d30f5",
     .modelled, "panic! / unreachable!() arms are part of the model", "conversion loop = Model.EnumRange.convertStep (update_underlying_type under distinct value ids): end_enum_order_independent"⟩,
-  ⟨"typer/src/typer/scopes.rs", "end_enum", "for:&enum_values|from:enum_symbols", "fd74accc2485",
-    .modelled, "unwrap() and assert_eq!(symbols.len(), 1) are part of the model (with their messages)", "promotion loop = Model.EnumRange.promoteStep (per-name update + replacement count): end_enum_order_independent"⟩,
+  ⟨"typer/src/typer/scopes.rs", "end_enum", "for:&enum_values|from:enum_symbols", "054261ad51ae",
+    .modelled, "unwrap() is part of the model (constant message)", "promotion loop = Model.EnumRange.promoteStep (per-name update of a vector of ANY length + replacement count; body re-read after fix batch 3: fe5dd8d removes assert_eq!(symbols.len(), 1), the text is also tied by Gen.EnumRange.promoteLoop): end_enum_order_independent"⟩,
   ⟨"typer/src/typer/scopes.rs", "end_enum", "for:enum_values|from:enum_symbols", "45774f126f3f",
     .modelled, "is_some() tests the result of insert; the panic message is a constant: both in the model", "reinsertion = Model.EnumRange.reinsertStep (distinct names; constant panic message): end_enum_order_independent"⟩,
   ⟨"typer/src/typer/scopes.rs", "end_enum", "for:symbols", "7ccfa991b261",
-    .mapValueVec, "", "inner loop of the promotion loop over the one-element Vec of the name"⟩,
+    .mapValueVec, "", "inner loop of the promotion loop over the Vec of the name (one enum value, possibly next to a constant buffer block of the same name since fe5dd8d); part of Model.EnumRange.promoteStep (map Sym.promote / filter Sym.isUntyped)"⟩,
   ⟨"typer/src/typer/scopes.rs", "extract_locals", "method:self.variables.iter", "cd13c9cc2951",
     .unobserved, "", "fills ScopedDeclarations.variables in hash order; no exporter reads its order (scoped_declarations_unobserved)"⟩,
   ⟨"typer/src/typer/scopes.rs", "find_identifier_in_scope", "for:symbols", "b8568009a2af",
@@ -237,6 +237,9 @@ def classified : List Reviewed := [
   ⟨"typer/src/typer/scopes.rs", "find_identifier_in_scope", "for:symbols", "14cdd086984a",
     .mapValueVec, "first value symbol (cbuffer member, global, enum value, template type / value, constant) of a Vec in push (= declaration) order; functions are collected as overloads in that order (the candidate lists of ambiguity diagnostics); Type / ConstantBuffer / Namespace / EnumScope symbols are skipped; the debug_assert! (a value symbol never follows a gathered overload) has a constant text",
     "`symbols` is the Vec stored as a map value; body re-read after fix batch 2 (31dddea widens the debug_assert to the skipped symbol kinds, 0523738 turns the unreachable!() of the TemplateValue arm into `return Some(VariableExpression::TemplateValue(id))`)"⟩,
+  ⟨"typer/src/typer/scopes.rs", "register_enum_value", "method:symbols.iter", "d3ce669c38d8",
+    .mapValueVec, "`symbols.iter().any(is Namespace)` (added by fix fe5dd8d): an existential test over the Vec stored under the value's name in the parent scope (push order, not a hash walk); the `return Err(ValueAlreadyDefined(name, Unknown, Unknown))` it guards carries only the name being declared, nothing of the symbol that matched",
+    "`symbols` is the Vec stored as a map value, reached by `get(&name.node)`"⟩,
   ⟨"typer/src/typer/scopes.rs", "walk_into_scopes", "for:symbols", "98fd69e2a092",
     .mapValueVec, "assert_eq!(current, step_start): at most one scope symbol per name, walked in push order", "`symbols` is the Vec stored as a map value"⟩]
 
@@ -374,7 +377,9 @@ open RsslVerif.Model.EnumRange RsslVerif.Lemmas.EnumRange
 /-- Tie to the source: the loops of `end_enum` are the ones `Model/EnumRange.lean` transcribes — initial range
     `(0, 0)`, six integer-like arms doing `min`/`max` on the widened value and a panicking `_` arm, the
     `i32` / `u32` / error selection with the error located at the ENUM's name and carrying `(min, max)`, the
-    widening arms and the two wrapping conversions.  Any edit of these pieces (the seeded change C07-3 rewrites
+    widening arms and the two wrapping conversions, the promotion loop (`unwrap`, promote every untyped value of
+    the name's vector, count, `assert_eq!` on the count — WITHOUT the `assert_eq!(symbols.len(), 1)` that fix
+    `fe5dd8d` removed) and the reinsertion loop.  Any edit of these pieces (the seeded change C07-3 rewrites
     the range loop and the error location) stops this theorem until the model is brought up to date. -/
 theorem end_enum_shape_as_modelled :
     RsslVerif.Gen.EnumRange.init = [("min_value", "0"), ("max_value", "0")] ∧
@@ -401,7 +406,11 @@ theorem end_enum_shape_as_modelled :
     RsslVerif.Gen.EnumRange.convertArms =
       [("ir::ScalarType::Int32", "", "ir::Constant::Int32(value as i32)"),
        ("ir::ScalarType::UInt32", "", "ir::Constant::UInt32(value as u32)"),
-       ("_", "", "unreachable!()")] := by decide +kernel
+       ("_", "", "unreachable!()")] ∧
+    RsslVerif.Gen.EnumRange.promoteLoop =
+      "let mut replacements = 0; for (name, _) in &enum_values { let symbols = self.scopes[parent_scope].symbols.get_mut(name).unwrap(); for symbol in symbols { if let ScopeSymbol::EnumValueUntyped(id) = symbol { *symbol = ScopeSymbol::EnumValue(*id); replacements += 1; } } } assert_eq!(replacements, enum_values.len());" ∧
+    RsslVerif.Gen.EnumRange.reinsertLoop =
+      "for (name, id) in enum_values { if self.scopes[self.current_scope] .symbols .insert(name, Vec::from([ScopeSymbol::EnumValue(id)])) .is_some() { panic!(\"duplicate symbol when reinserting typed enum values\"); } }" := by decide +kernel
 
 /-- the chosen underlying type, or the range error with its location and `(min, max)` payload -/
 def typeOrError (enumLoc : Loc) (vals : List Entry) : Except Failure Scalar :=
@@ -436,23 +445,31 @@ theorem gather_panic_message_order_dependent :
    List.Perm.swap _ _ _, by decide⟩
 
 /-- **`end_enum` as a whole is order independent**: underlying type or error, the enum registry after the
-    conversion loop, the parent scope after the promotion loop and the re-filled enum scope are the same for
-    every two iteration orders of the drained symbol map.  Hypotheses = what the callers establish: values are
-    integer-like; names are distinct (they are the keys of one map) and so are value ids (fresh registry indices);
-    every name maps to a one-element vector in the parent scope (`register_enum_value` rejects a name that is
-    already defined there and then pushes onto a fresh vector). -/
+    conversion loop, the parent scope after the promotion loop and the re-filled enum scope — or the panic with
+    its message — are the same for every two iteration orders of the drained symbol map, for EVERY parent scope:
+    the vector of a name may hold any number of symbols (since fix `fe5dd8d` an enum value may share its name with
+    a constant buffer block; the former hypothesis "every name maps to a one-element vector" — the negation of
+    the repaired `assert_eq!(symbols.len(), 1)` panic — is gone, and so is "names are distinct": the promotion
+    and reinsertion iterations commute on every state).  Hypotheses = what the callers establish: values are
+    integer-like and value ids distinct (fresh registry indices). -/
 theorem end_enum_order_independent (enumLoc : Loc) (registry : Nat → Option Const) (parent : Scope)
     {vals₁ vals₂ : List Entry} (p : vals₁.Perm vals₂)
     (hint : ∀ e ∈ vals₁, e.value.widen?.isSome)
-    (hname : ∀ x ∈ vals₁, ∀ y ∈ vals₁, x.name = y.name → x = y)
-    (hid : ∀ x ∈ vals₁, ∀ y ∈ vals₁, x.id = y.id → x = y)
-    (hparent : ∀ e ∈ vals₁, ∃ syms, parent e.name = some syms ∧ syms.length = 1) :
+    (hid : ∀ x ∈ vals₁, ∀ y ∈ vals₁, x.id = y.id → x = y) :
     endEnum enumLoc registry parent vals₁ = endEnum enumLoc registry parent vals₂ := by
   have hconv : ∀ scalar, vals₁.foldl (convertStep scalar) (.ok registry) =
       vals₂.foldl (convertStep scalar) (.ok registry) := fun scalar => convert_perm scalar p hint hid registry
   unfold endEnum
-  rw [gather_perm p hint, promote_perm p hname parent hparent, reinsert_perm p hname, p.length_eq]
+  rw [gather_perm p hint, promote_perm p, reinsert_perm p, p.length_eq]
   simp only [hconv]
+
+/-- The promotion loop of `end_enum` does not panic on what `register_enum_value` leaves behind: every name of
+    the enum has an entry in the parent scope — of any length.  (Before fix `fe5dd8d` a second symbol under the
+    name, `cbuffer A {..} enum E { A };`, ended in `assert_eq!(symbols.len(), 1)`.) -/
+theorem end_enum_promotion_total (parent : Scope) (vals : List Entry)
+    (hparent : ∀ e ∈ vals, ∃ syms, parent e.name = some syms) :
+    ∃ parent' n, vals.foldl promoteStep (.ok (parent, 0)) = .ok (parent', n) :=
+  promote_ok parent hparent
 
 /-- The seeded variant C07-3 (error located at the first value after which no type fits) is NOT order
     independent: the same three values in two orders blame two different locations.  The classification
@@ -477,6 +494,24 @@ example : (match endEnum 5 (fun _ => none)
     | .ok r => (r.scalar, r.registry 0, r.registry 1, r.parent "A", r.enumScope "B") ==
         (Scalar.int32, some (Const.int32 1), some (Const.int32 7), some [Sym.enumValue 0], some [Sym.enumValue 1])
     | .error _ => false) = true := by decide
+
+/-! Non-vacuity of the class that fix `fe5dd8d` opened: `cbuffer A { .. } enum E { A, B };` — the parent scope holds
+    the constant buffer block (`Sym.other 7`) AND the untyped value under `A`; both orders promote the value, keep the
+    block, and count two replacements (no panic). -/
+def cbufferParent : Scope := fun n =>
+  if n = "A" then some [Sym.other 7, Sym.enumValueUntyped 0] else if n = "B" then some [Sym.enumValueUntyped 1] else none
+
+def runOnCbufferParent (vals : List Entry) :=
+  match endEnum 5 (fun _ => none) cbufferParent vals with
+  | .ok r => some (r.scalar, r.registry 0, r.registry 1, r.parent "A", r.parent "B", r.enumScope "A")
+  | .error _ => none
+
+example :
+    (runOnCbufferParent [⟨"B", 1, .intLiteral 7, 20⟩, ⟨"A", 0, .intLiteral 0, 10⟩] ==
+      runOnCbufferParent [⟨"A", 0, .intLiteral 0, 10⟩, ⟨"B", 1, .intLiteral 7, 20⟩]) = true ∧
+    (runOnCbufferParent [⟨"A", 0, .intLiteral 0, 10⟩, ⟨"B", 1, .intLiteral 7, 20⟩] ==
+      some (Scalar.int32, some (Const.int32 0), some (Const.int32 7), some [Sym.other 7, Sym.enumValue 0],
+        some [Sym.enumValue 1], some [Sym.enumValue 0])) = true := by decide
 
 end EndEnum
 
